@@ -9,7 +9,7 @@ From Gen Require Import C14 C14B.
 From C14 Require Import Model ModelTags.
 From C08 Require Import ModelSL.
 From C14B Require Import Model ModelTags2 Proofs_table Proofs_info Proofs_dec Proofs_name5 Proofs_check
-     Proofs_tags2 Proofs_sl2 Examples Examples_tags Proofs_final.
+     Proofs_tags2 Proofs_sl2 Proofs_plain Examples Examples_tags Proofs_final.
 Import ListNotations.
 Local Open Scope N_scope.
 
@@ -299,6 +299,39 @@ Theorem drop_equal_default_refuted :
             ((t_latn, t_TRK), (65535, [0; 1; 2]))].
 Proof. exact Examples_tags.drop_equal_default_refuted. Qed.
 Print Assumptions drop_equal_default_refuted.
+
+(* ------------------------------------------------------------------ *)
+(* bcp47ToOtf on a tag WITHOUT an x extension (the Chinese special cases and
+   the two table searches, with fixes/C08-bcp47-plain-tag-deterministic.diff:
+   the smallest matching OpenType tag) is a function of the tag: for every
+   iteration order of langBcp47 and of scriptBcp47 the answer is the one
+   obtained in table order.  Rests on regenerated facts: both loops have the
+   smallest-key shape and no key of the tables is empty. *)
+Theorem plain_tag_is_function :
+  forall iterL iterS pt,
+    Permutation iterL gtab_langBcp47 -> Permutation iterS gtab_scriptBcp47 ->
+    M_plain_tag iterL iterS pt = M_plain_tag gtab_langBcp47 gtab_scriptBcp47 pt.
+Proof. exact plain_tag_function_lemma. Qed.
+Print Assumptions plain_tag_is_function.
+
+(* as found (stop at the first match) it was not: bn-Beng is "beng" in one
+   order of the script table and "bng2" in another *)
+Theorem plain_tag_as_found_refuted :
+  Permutation (rev gtab_scriptBcp47) gtab_scriptBcp47 /\
+  M_plain_tag_gen false false gtab_langBcp47 gtab_scriptBcp47 pt_bnBeng = (t_beng, [66; 69; 78; 32]) /\
+  M_plain_tag_gen false false gtab_langBcp47 (rev gtab_scriptBcp47) pt_bnBeng = (t_bng2, [66; 69; 78; 32]).
+Proof. exact Examples_tags.plain_tag_as_found_refuted. Qed.
+Print Assumptions plain_tag_as_found_refuted.
+
+(* ScriptListInfo.encode with keys of either kind (x extension or plain), for
+   every order in which the map is visited: the bytes (or the refusal) do not
+   depend on the iteration order of the two tables. *)
+Theorem scriptlist_plain_keys_function :
+  forall iterL iterS (info : list (gtag * langsys)),
+    Permutation iterL gtab_langBcp47 -> Permutation iterS gtab_scriptBcp47 ->
+    M_sl_info_encode_g iterL iterS info = M_sl_info_encode_g gtab_langBcp47 gtab_scriptBcp47 info.
+Proof. exact sl_plain_function_lemma. Qed.
+Print Assumptions scriptlist_plain_keys_function.
 
 (* ------------------------------------------------------------------ *)
 (* Totality.  get, set, keys, Encode, the tag conversions and the grouping
